@@ -160,7 +160,7 @@ func (p *pipe) availableBuffer() []byte {
 
 // discardBefore discards all data prior to off.
 func (p *pipe) discardBefore(off int64) {
-	for p.head != nil && p.head.end() < off {
+	for p.head != nil && p.head.end() <= off {
 		head := p.head
 		p.head = p.head.next
 		head.recycle()
